@@ -22,6 +22,7 @@ import Proofs.CastTyped
 import Proofs.NoPanic
 import Model.Getters
 import Proofs.MapTo
+import Proofs.GettersExact
 
 namespace Jl.C17
 open Jl Jl.Value Cast CastTyped
@@ -263,5 +264,18 @@ theorem mapTo_field_independent (T : CastTables) (ext : Ext) (row : List (Bytes 
     (i j : Nat) (hi : i < fs.length) (hj : j < gs.length) (hi' : i < fs'.length) (hj' : j < gs'.length)
     (same : fs[i] = gs[j]) : fs'[i] = gs'[j] :=
   MapTo.mapTo_field_independent T ext row fs fs' gs gs' hf hg i j hi hj hi' hj' same
+
+
+/-! ### The zero value, getter by getter (Proofs/GettersExact) -/
+
+open Jl.GettersExact in
+/-- Every one of the sixteen getters answers the zero value of its type when the key is absent,
+    when the cell holds nil (JSON null) and when it holds something no caster converts: an array,
+    a map, a nested row, a value of a foreign type. -/
+theorem getter_zero_when_nothing_converts (ext : Ext) (name caster : String) (ty : Ty)
+    (h : Getters.table.lookup name = some (caster, ty)) (row : List (Bytes × Val)) (k : Bytes)
+    (hraw : Getters.getOrNil row k = .nil ∨ Unconvertible (Getters.getOrNil row k)) :
+    Getters.typedGet ⟨genTables, ext⟩ name row k = some (.ok (Getters.zeroOf ty)) :=
+  getter_zero_of_unconvertible ext name caster ty h row k hraw
 
 end Jl.C17
